@@ -25,7 +25,7 @@ from hsim.worlds.udp import UdpWorld
 
 PROPERTY = "C18"
 CHUNK = {"quick": 10, "thorough": 24}
-PROBES = ["window_overflow", "aged_out_entry_kept_visible", "refilter_after_freeze", "refilter_after_session_gone",
+PROBES = ["second_log_window", "paused_beside_running_window", "window_overflow", "aged_out_entry_kept_visible", "refilter_after_freeze", "refilter_after_session_gone",
           "logged_while_paused_dropped", "clear", "export_import", "type_mismatch_leaf", "nested_depth_3",
           "meta_rhs", "enum_rhs", "glob_selector", "http_entry", "eq_entry", "lludp_entry", "filter_true_and_false_seen",
           "not_node", "or_node", "and_node"]
@@ -262,6 +262,7 @@ def gen_plan(rng: random.Random, tier: str) -> dict:
     big = tier == "thorough"
     cfg = {"deferred": rng.random() < 0.8, "same_ip": False, "n_viewers": 1, "regions": [[0]],
            "maxlen": rng.choice([4, 6, 10, 30]), "queue_latency": rng.choice([0.0, 0.005]),
+           "second_window": rng.random() < 0.5,
            "latency_seed": rng.randrange(1 << 30), "tail": 0.4}
     n = rng.randint(6, 70 if big else 36)
     steps = [{"at": 0.05, "op": "ucc", "v": 0, "r": 0}]
@@ -331,6 +332,8 @@ def simplify_plan(plan):
         yield {**plan, "cfg": {**cfg, "deferred": True}}
     if cfg["maxlen"] != 30:
         yield {**plan, "cfg": {**cfg, "maxlen": 30}}
+    if cfg.get("second_window"):
+        yield {**plan, "cfg": {**cfg, "second_window": False}}
 
 
 def run_plan(plan: dict) -> RunResult:
@@ -396,7 +399,9 @@ def run_plan(plan: dict) -> RunResult:
                             violate("C18/filter/wrong-result-while-logging", filter=model["filter_text"], entry=snap.name,
                                     got=bool(ret), want=want, type_=snap.type)
                 else:
-                    res.probe("logged_while_paused_dropped")
+                    res.probe("paused_beside_running_window")
+                    if ret:
+                        violate("C18/view/logged-while-paused", entry=snap.name, type_=snap.type)
                 return ret
 
         def take_snapshot(entry) -> Snapshot:
@@ -431,6 +436,12 @@ def run_plan(plan: dict) -> RunResult:
         flogger = ObservedLogger(maxlen=cfg["maxlen"])
         wrapper = WrappingMessageLogger()
         wrapper.loggers.append(flogger)
+        if cfg.get("second_window"):
+            # the GUI attaches every log window to one wrapper: a second window that is never paused keeps the
+            # wrapper as a whole un-paused while ours is
+            other = FilteringMessageLogger(maxlen=50)
+            wrapper.loggers.append(other)
+            res.probe("second_log_window")
         world = UdpWorld(env, cfg, logger=wrapper)
         wmodel = WireModel(world, eager=not cfg.get("deferred", True))
         spec = world.login(0, cfg["regions"][0])
